@@ -131,6 +131,15 @@ static Result judge_C07_tree(const Case& c) {
     free(buf);
     if (!m.empty()) return fail(m);
   }
+  // buffers whose size does not fit an int / a uint32_t (really that large: vh::huge_buffer)
+  if (uint8_t* hb = vh::huge_buffer()) {
+    size_t claim = vh::kHugeClaims[(S + want[0]) % 7];
+    memset(hb, 0xC5, S + 2);
+    size_t w = cbor_serialize(t.item, hb, claim);
+    vh::counters["huge_buffer_calls"]++;
+    if (w != S) return fail("buffer of " + std::to_string(claim) + " bytes: cbor_serialize returned " + std::to_string(w) + ", cbor_serialized_size is " + std::to_string(S));
+    if (memcmp(hb, want.data(), S) != 0 || hb[S] != 0xC5 || hb[S + 1] != 0xC5) return fail("buffer of " + std::to_string(claim) + " bytes: output differs from the encoding or bytes beyond it were written");
+  }
   unsigned char* ab = nullptr; size_t al = 12345;
   size_t aw = cbor_serialize_alloc(t.item, &ab, &al);
   if (!ab) return fail("cbor_serialize_alloc returned no buffer");
@@ -170,6 +179,13 @@ static Result judge_C07_enc(int e, uint64_t v) {
     }
     free(buf);
     if (!m.empty()) { r.ok = false; r.msg = std::string("cbor_encode_") + enc_name(e) + " value 0x" + vh::hex((const uint8_t*)&v, 8) + "(LE): " + m; return r; }
+  }
+  if (uint8_t* hb = vh::huge_buffer()) {   // a buffer size that does not fit an int / a uint32_t changes nothing
+    uint8_t small[16]; memset(small, 0xC5, 16); size_t ws = call_encoder(e, v, small, 16);
+    size_t claim = vh::kHugeClaims[(v ^ (uint64_t)e) % 7];
+    memset(hb, 0xC5, 16); size_t wh = call_encoder(e, v, hb, claim);
+    vh::counters["huge_buffer_calls"]++;
+    if (wh != ws || memcmp(hb, small, 16) != 0) { r.ok = false; r.msg = std::string("cbor_encode_") + enc_name(e) + " value 0x" + vh::hex((const uint8_t*)&v, 8) + "(LE): with a buffer of " + std::to_string(claim) + " bytes it returned " + std::to_string(wh) + " / wrote " + vh::hex(hb, 10) + "; with 16 bytes " + std::to_string(ws) + " / " + vh::hex(small, 10); return r; }
   }
   if (va::g.requests + va::g.frees) { r.ok = false; r.msg = "encoder used the allocator"; }
   return r;
